@@ -434,7 +434,9 @@ class ExpectedParallelImprovementWithFailures(ExpectedParallelImprovement):
         )
       )
       for i, pf in enumerate(self.failure_model.list_of_probabilistic_failures):
-        posterior_predictions_failures[i] = numpy.tensordot(chol_cov_tensor_failures[i], normals, ([1], [1]))
+        # each metric's GP is an independent model: its posterior draws must not share the objective's normals
+        failure_normals = numpy.random.normal(size=(num_mc_iterations_per_loop, covariance_size))
+        posterior_predictions_failures[i] = numpy.tensordot(chol_cov_tensor_failures[i], failure_normals, ([1], [1]))
         posterior_predictions_failures[i, : self.num_points_to_sample, :, :] += mean_to_evaluate_failures[i, :, :, None]
         if self.num_points_being_sampled:
           posterior_predictions_failures[i, -self.num_points_being_sampled :, :, :] += mean_being_sampled_failures[
